@@ -41,12 +41,13 @@ var MethodMap = map[string]Operation{
 	"/gripql.Edit/DeleteVertex": Write,
 	"/gripql.Edit/DeleteEdge":   Write,
 	"/gripql.Edit/AddIndex":     Write,
+	"/gripql.Edit/DeleteIndex":  Write,
 	"/gripql.Edit/AddSchema":    Write,
 	"/gripql.Edit/AddMapping":   Write,
 	"/gripql.Edit/SampleSchema": Write, //Maybe exec?
 
 	"/gripql.Configure/StartPlugin": Admin,
-	"/gripql.Configure/ListPlugin":  Admin,
+	"/gripql.Configure/ListPlugins": Admin,
 	"/gripql.Configure/ListDrivers": Admin,
 }
 
